@@ -198,6 +198,9 @@ fn compare_song(i: usize, got: &Song, want: &ExpSong) -> Result<(), String> {
             want.modified
         ));
     }
+    if let (Some(ts), Some(raw)) = (&got.last_modified, &want.modified) {
+        chrono_agrees(ts, raw).map_err(|e| format!("song {i} ({}): {e}", want.url))?;
+    }
     let mut tags: BTreeMap<String, Vec<String>> = BTreeMap::new();
     for (t, v) in &got.tags {
         if tags.insert(tag_name(t), v.clone()).is_some() {
@@ -253,6 +256,9 @@ pub fn check(case: &Case) -> CaseResult {
 }
 
 pub fn check_used(u: &OnUsedConnection<Case>) -> CaseResult {
+    if u.after_failed_conversions() {
+        crate::streamlab::fail_some_typed_conversions_first();
+    }
     let mut r = with_history(&u.history, || check_variant(&u.case, u.variant));
     u.classify(&mut r);
     r
@@ -384,9 +390,47 @@ pub fn canonical_or_unknown(s: &str) -> bool {
     tag_table().iter().all(|(_, n)| !n.eq_ignore_ascii_case(s) || *n == s)
 }
 
+/// RFC 3339 timestamps: MPD writes UTC ("Z"); one in four carries another valid way of writing the
+/// zone (an offset, `+00:00`, `-00:00`) as other servers and proxies do.
 pub fn timestamp() -> impl Strategy<Value = String> {
-    (1970..2100u32, 1..=12u32, 1..=28u32, 0..24u32, 0..60u32, 0..60u32)
-        .prop_map(|(y, mo, d, h, mi, s)| format!("{y:04}-{mo:02}-{d:02}T{h:02}:{mi:02}:{s:02}Z"))
+    (
+        (1970..2100u32, 1..=12u32, 1..=28u32, 0..24u32, 0..60u32, 0..60u32),
+        prop_oneof![
+            12 => Just("Z".to_string()),
+            1 => Just("+00:00".to_string()),
+            1 => Just("-00:00".to_string()),
+            2 => (any::<bool>(), 0..15u32, prop_oneof![Just(0u32), Just(30), Just(45)]).prop_map(|(neg, h, m)| format!("{}{h:02}:{m:02}", if neg { '-' } else { '+' })),
+        ],
+    )
+        .prop_map(|((y, mo, d, h, mi, s), zone)| format!("{y:04}-{mo:02}-{d:02}T{h:02}:{mi:02}:{s:02}{zone}"))
+}
+
+/// With the chrono feature: the parsed date-time must be the one the server wrote - same wall-clock
+/// reading AND same offset (two values comparing equal as instants is not enough).
+#[cfg(feature = "chrono")]
+pub fn chrono_agrees(ts: &mpd_client::responses::Timestamp, raw: &str) -> Result<(), String> {
+    let dt = ts.chrono_datetime();
+    if raw.len() < 20 {
+        return Ok(());
+    }
+    let zone = &raw[19..];
+    let want_off: i32 = if zone == "Z" {
+        0
+    } else {
+        let sign = if zone.starts_with('-') { -1 } else { 1 };
+        let (h, m) = (zone[1..3].parse::<i32>().unwrap_or(0), zone[4..6].parse::<i32>().unwrap_or(0));
+        sign * (h * 3600 + m * 60)
+    };
+    let wall = dt.format("%Y-%m-%dT%H:%M:%S").to_string();
+    if dt.offset().local_minus_utc() != want_off || wall != raw[..19] {
+        return Err(format!("chrono_datetime() of {raw:?} reads {wall} at offset {} s, the server wrote {} at offset {want_off} s", dt.offset().local_minus_utc(), &raw[..19]));
+    }
+    Ok(())
+}
+
+#[cfg(not(feature = "chrono"))]
+pub fn chrono_agrees(_ts: &mpd_client::responses::Timestamp, _raw: &str) -> Result<(), String> {
+    Ok(())
 }
 
 fn text() -> impl Strategy<Value = String> {
